@@ -38,6 +38,115 @@ func CellFn(a *ssa.Alloc) *ssa.Function {
 	return fn
 }
 
+// CalleeCandidates: for a call through a function value that is a phi (or a single-assignment chain) of named
+// functions, all of them; nil when any possibility is not a known function.
+func CalleeCandidates(c *ssa.CallCommon) []*ssa.Function {
+	seen := map[ssa.Value]bool{}
+	var out []*ssa.Function
+	ok := true
+	var walk func(v ssa.Value, d int)
+	walk = func(v ssa.Value, d int) {
+		if !ok || seen[v] {
+			return
+		}
+		seen[v] = true
+		if d > 6 {
+			ok = false
+			return
+		}
+		switch x := v.(type) {
+		case *ssa.Function:
+			out = append(out, x)
+		case *ssa.Phi:
+			for _, e := range x.Edges {
+				walk(e, d+1)
+			}
+		case *ssa.ChangeType:
+			walk(x.X, d+1)
+		case *ssa.Const:
+			if !x.IsNil() {
+				ok = false
+			}
+			// a nil function value panics when called: no effect to account for
+		default:
+			ok = false
+		}
+	}
+	walk(c.Value, 0)
+	if !ok {
+		return nil
+	}
+	return out
+}
+
+// LiteralParamBinding: for a parameter of a function literal that is used at exactly one site (go/defer/call of the
+// literal itself), the argument it receives there. Otherwise nil.
+func LiteralParamBinding(p *ssa.Parameter) ssa.Value {
+	f := p.Parent()
+	if f == nil || f.Parent() == nil {
+		return nil
+	}
+	idx := -1
+	for i, q := range f.Params {
+		if q == p {
+			idx = i
+		}
+	}
+	if idx < 0 {
+		return nil
+	}
+	var found ssa.Value
+	n := 0
+	AllInstrs(f.Parent(), func(i ssa.Instruction) {
+		ci, ok := i.(ssa.CallInstruction)
+		if !ok {
+			return
+		}
+		cc := ci.Common()
+		var target *ssa.Function
+		switch v := cc.Value.(type) {
+		case *ssa.Function:
+			target = v
+		case *ssa.MakeClosure:
+			target, _ = v.Fn.(*ssa.Function)
+		}
+		if target == f {
+			n++
+			if idx < len(cc.Args) {
+				found = cc.Args[idx]
+			}
+		}
+	})
+	// the literal must not be used in any other way (stored, passed on)
+	uses := 0
+	AllInstrs(f.Parent(), func(i ssa.Instruction) {
+		if mc, isMC := i.(*ssa.MakeClosure); isMC {
+			if fn, _ := mc.Fn.(*ssa.Function); fn == f {
+				return // the creation of the closure is not a use of it
+			}
+		}
+		for _, op := range i.Operands(nil) {
+			if op == nil || *op == nil {
+				continue
+			}
+			switch v := (*op).(type) {
+			case *ssa.Function:
+				if v == f {
+					uses++
+				}
+			case *ssa.MakeClosure:
+				if fn, _ := v.Fn.(*ssa.Function); fn == f {
+					uses++
+				}
+			}
+		}
+	})
+	if n != 1 || uses != 1 {
+		return nil
+	}
+	return found
+}
+
 // FreeVarBinding returns the value bound to a free variable at the (unique) creation site of its literal.
 func FreeVarBinding(fv *ssa.FreeVar) ssa.Value {
 	lit := fv.Parent()
@@ -693,12 +802,52 @@ func decidedSucc(b, pred *ssa.BasicBlock) int {
 	v := phi.Edges[idx]
 	isNil, known := nilness(v, 0)
 	if !known {
+		isNil, known = nilnessAt(v, pred)
+	}
+	if !known {
 		return -1
 	}
 	if isNil == nilIsTrue {
 		return 0
 	}
 	return 1
+}
+
+// nilnessAt: what a dominating test `v ==/!= nil` says about v in block at (the taken successor of the test has the
+// test block as its only predecessor and dominates at).
+func nilnessAt(v ssa.Value, at *ssa.BasicBlock) (isNil, known bool) {
+	fn := at.Parent()
+	for _, b := range fn.Blocks {
+		ifi, ok := b.Instrs[len(b.Instrs)-1].(*ssa.If)
+		if !ok || b.Succs[0] == b.Succs[1] {
+			continue
+		}
+		cmp, ok := ifi.Cond.(*ssa.BinOp)
+		if !ok || (cmp.Op != token.EQL && cmp.Op != token.NEQ) {
+			continue
+		}
+		var other ssa.Value
+		switch {
+		case cmp.X == v:
+			other = cmp.Y
+		case cmp.Y == v:
+			other = cmp.X
+		default:
+			continue
+		}
+		if !IsNilConst(other) {
+			continue
+		}
+		for si, succ := range b.Succs {
+			if len(succ.Preds) != 1 || !(succ == at || succ.Dominates(at)) {
+				continue
+			}
+			// on the true edge of ==, or the false edge of !=, v is nil
+			nilHere := (cmp.Op == token.EQL) == (si == 0)
+			return nilHere, true
+		}
+	}
+	return false, false
 }
 
 // nilness: v is known to be nil / known to be non-nil.
@@ -918,6 +1067,17 @@ func LocalCopySource(a *ssa.Alloc) ssa.Value {
 // (address arithmetic, loads of locals it was stored to, conversions, phis, calls whose
 // result is in retFlow). Used for binding / provenance rules; over-approximate and intra-procedural.
 func FlowsTo(from ssa.Value, to ssa.Value, through func(call *ssa.Call, argIdx int) bool) bool {
+	return FlowsToVia(from, to, func(call *ssa.Call, argIdx int) (ssa.Value, bool) {
+		if through != nil && through(call, argIdx) {
+			return call, true
+		}
+		return nil, false
+	})
+}
+
+// FlowsToVia is FlowsTo with a callback that names the value a call passes its argument on to (its result, or the
+// receiver it sets).
+func FlowsToVia(from ssa.Value, to ssa.Value, via func(call *ssa.Call, argIdx int) (ssa.Value, bool)) bool {
 	seen := map[ssa.Value]bool{}
 	var walk func(v ssa.Value) bool
 	walk = func(v ssa.Value) bool {
@@ -944,10 +1104,10 @@ func FlowsTo(from ssa.Value, to ssa.Value, through func(call *ssa.Call, argIdx i
 					}
 				}
 			case *ssa.Call:
-				if through != nil {
+				if via != nil {
 					for i, a := range x.Call.Args {
-						if a == v && through(x, i) {
-							if walk(x) {
+						if a == v {
+							if nv, ok := via(x, i); ok && walk(nv) {
 								return true
 							}
 						}
